@@ -459,7 +459,18 @@ def make_world(repo=None):
                                       partial=PBuiltin(lambda it, f, *a, **k: PBuiltin(lambda it, *b, **kk: it.call(f, list(a) + list(b), {**k, **kk}), 'partial'), 'partial'))
     sp['pathlib'] = lambda it: _mod('pathlib', Path=PathClass(), PurePath=PathClass())
     sp['os'] = lambda it: _mod('os', sep='/', path=Opaque('os.path'), PathLike=Opaque('PathLike'), environ=PDict())
-    sp['string'] = lambda it: _mod('string')
+    class FormatterModel:
+        def pyvc_call(self, it, args, kwargs): return self
+        def pyvc_getattr(self, it, name):
+            if name == 'parse':
+                def parse(it_, t):
+                    import string as _s
+                    lt = V._lit(it_, t)
+                    if lt is None: raise OutsideSubset('Formatter().parse on a symbolic template')
+                    return [tuple(x) for x in _s.Formatter().parse(lt)]
+                return PBuiltin(parse, 'Formatter.parse')
+            raise OutsideSubset('Formatter.' + name)
+    sp['string'] = lambda it: _mod('string', Formatter=FormatterModel())
     sp['sys'] = lambda it: _mod('sys', path=[], version_info=(3, 12, 1))
     sp['re'] = lambda it: _mod('re', compile=PBuiltin(lambda it, *a, **k: Opaque('re.compile'), 're.compile'), escape=PBuiltin(_re_escape, 're.escape'))
     sp['collections'] = lambda it: _mod('collections', OrderedDict=PBuiltin(lambda it, *a, **k: V._b_dict(it, *a, **k), 'OrderedDict'), defaultdict=Opaque('defaultdict'))
